@@ -1,0 +1,58 @@
+//go:build verif
+
+package starlark
+
+// Read-only view of a dict's or set's hash table, for coverage statistics of
+// the C12 verification harness (never compared with anything).
+
+func verifC12Table(v Value) *hashtable {
+	switch v := v.(type) {
+	case *Dict:
+		return &v.ht
+	case *Set:
+		return &v.ht
+	}
+	return nil
+}
+
+// VerifC12Shape reports the number of bucket chains, the total number of
+// buckets and the number of buckets in the longest chain.
+func VerifC12Shape(v Value) (chains, buckets, maxChain int) {
+	ht := verifC12Table(v)
+	if ht == nil {
+		return
+	}
+	chains = len(ht.table)
+	for i := range ht.table {
+		n := 0
+		for p := &ht.table[i]; p != nil; p = p.next {
+			n++
+		}
+		buckets += n
+		if n > maxChain {
+			maxChain = n
+		}
+	}
+	return
+}
+
+// VerifC12Locate reports where the entry whose key is identical (==) to k
+// sits: chain number and 8*bucket+slot within the chain.
+func VerifC12Locate(v Value, k Value) (chain, index int, ok bool) {
+	ht := verifC12Table(v)
+	if ht == nil {
+		return
+	}
+	for i := range ht.table {
+		b := 0
+		for p := &ht.table[i]; p != nil; p = p.next {
+			for j := range p.entries {
+				if p.entries[j].hash != 0 && p.entries[j].key == k {
+					return i, b*bucketSize + j, true
+				}
+			}
+			b++
+		}
+	}
+	return
+}
